@@ -27,6 +27,10 @@ def rounds(ctx):
             MaxDepth=4, MaxDeliver=1, MaxCount=1, MaxId=2, Studies={'s1', 's2'}, Clients={'w1'}, Params={'p1'}, Meas={'m1'}, SharedStudyId=True,
             Kinds={'CreateStudy', 'SuggestTrials', 'CompleteTrial', 'DeleteTrial', 'DeleteStudy', 'CreateTrial', 'UpdateMetadata'}),
              backends={'ram': 1.0, 'sqlmem': 1.0}),
+        dict(name='es_other_trials_d4', consts=speca.constants(
+            MaxDepth=4, Recycle='always', EsAlso=True, MaxId=2, MaxCount=2, MaxDeliver=2, Params={'p1'}, Meas={'m1'}, Clients={'w1'},
+            Kinds={'CreateStudy', 'SuggestTrials', 'CheckEarlyStopping', 'StopTrial'}),
+             backends={'ram': 1.0, 'sqlmem': 1.0, 'sqlfile': 0.1}),
         dict(name='recreate_numbering_d5', consts=speca.constants(
             MaxDepth=5, MaxId=2, MaxCount=1, MaxDeliver=1, Clients={'w1'}, Params={'p1'}, Meas={'m1'}, Vals={'v1'},
             Kinds={'CreateStudy', 'DeleteStudy', 'SuggestTrials', 'GetOperation', 'CheckEarlyStopping'}),
